@@ -30,6 +30,7 @@ Record comment := mkComment { cm_text : list N; cm_tags : list tag; cm_rng : rng
 Record transaction := mkTx {
   tx_date : date; tx_date2 : option date; tx_status : status; tx_code : list N;
   tx_desc : list N; tx_payee : list N; tx_note : list N;
+  tx_prng : rng;    (* PayeeRange: where the payee (without one: the description) stands in the header *)
   tx_postings : list posting; tx_tags : list tag; tx_comments : list comment; tx_rng : rng }.
 
 Inductive directive :=
